@@ -36,6 +36,10 @@ pub struct Elem {
     pub to: Option<AttrVal>,
     #[serde(default)]
     pub name: Option<AttrVal>,
+    /// unwrap-block only: when the last child is a block element, its closing tag is written on
+    /// the same line as this element's closing wrapper (`/* </tag> */ }`)
+    #[serde(default)]
+    pub last_child_closes_on_wrapper: bool,
     /// the closing tag carries a remark after the name (`</tag end-of-campaign>`), which the
     /// parser ignores
     #[serde(default)]
@@ -314,7 +318,15 @@ fn render_nodes(doc: &Doc, nodes: &[Node], out: &mut Vec<String>) {
                         }
                     }
                     render_nodes(doc, &e.children, out);
-                    if let Some((_, w)) = &e.unwrap {
+                    let merge_last = e.last_child_closes_on_wrapper
+                        && e.wi(1).is_none()
+                        && matches!(e.children.last(), Some(Node::Elem(c)) if c.inline.is_none() && c.wi(3).is_none());
+                    if let (true, Some((_, w))) = (merge_last, &e.unwrap) {
+                        // `<child's closing tag> <closing wrapper>` on one line
+                        if let Some(last) = out.pop() {
+                            out.push(format!("{} {}", last, w.trim_start()));
+                        }
+                    } else if let Some((_, w)) = &e.unwrap {
                         match e.wi(1) {
                             Some(x) => {
                                 let t = w.trim_start();
@@ -521,6 +533,7 @@ impl Doc {
             }));
             variants.push(Box::new(|e| std::mem::take(&mut e.double_ds)));
             variants.push(Box::new(|e| std::mem::take(&mut e.close_remark)));
+            variants.push(Box::new(|e| std::mem::take(&mut e.last_child_closes_on_wrapper)));
             variants.push(Box::new(|e| e.inline_child.take().is_some()));
             variants.push(Box::new(|e| e.inline_next.take().is_some()));
             variants.push(Box::new(|e| e.wrapper_inline2.take().is_some()));
@@ -774,6 +787,7 @@ impl<'a, 'b> DocGen<'a, 'b> {
             to_dup: None,
             double_ds: false,
             close_remark: false,
+            last_child_closes_on_wrapper: false,
             skip: self.p.allow_skip && self.rng.chance(1, 12),
             unwrap: None,
             indent: indent.to_string(),
@@ -837,6 +851,10 @@ impl<'a, 'b> DocGen<'a, 'b> {
             to_dup: None,
             double_ds,
             close_remark: self.rng.chance(1, 15),
+            // never generated: a child's closing tag on the closing wrapper line is a "tag on a
+            // wrapper line" (C11's exclusion): when the unwrap-block is ready and the child is not,
+            // the child's closing tag goes with the wrapper line and stepwise legitimately differs
+            last_child_closes_on_wrapper: false,
             skip,
             unwrap: None,
             indent: indent.clone(),
